@@ -43,6 +43,13 @@ def generateSecretPolynomial (S : Suite F E) (secret : F) (maxSigners minSigners
   | .error e => .error e
   | .panic s => .panic s
 
+/-- one iteration of the loop of `generate_secret_shares` -/
+def mkSecretShare (cs : List F) (commitment : List E) (id : F) : Outcome F (SecretShare F E) :=
+  match evaluatePolynomial id cs with
+  | .ok v => .ok { id := id, share := v, commitment := commitment }
+  | .error e => .error e
+  | .panic s => .panic s
+
 /-- `generate_secret_shares` -/
 def generateSecretShares (S : Suite F E) (secret : F) (maxSigners minSigners : Nat)
     (coefficients : List F) (identifiers : List F) : Outcome F (List (SecretShare F E)) :=
@@ -51,11 +58,7 @@ def generateSecretShares (S : Suite F E) (secret : F) (maxSigners minSigners : N
     if (SMap.setOfList S.idLt identifiers).length ≠ identifiers.length then
       .error .DuplicatedIdentifier
     else
-      mapO (fun id =>
-        match evaluatePolynomial id cs with
-        | .ok v => .ok ({ id := id, share := v, commitment := commitment } : SecretShare F E)
-        | .error e => .error e
-        | .panic s => .panic s) identifiers
+      mapO (mkSecretShare cs commitment) identifiers
   | .error e => .error e
   | .panic s => .panic s
 
